@@ -23,11 +23,12 @@ PROPS = {
     "C01": dict(
         level="exploration", labels=LOOP_LABELS,
         campaigns=[("loop", ["profile=all"], 100000, 2000000), ("loop", ["profile=all", "big=1"], 30000, 600000),
-                   ("loop", ["profile=fd"], 20000, 400000), ("mt", ["profile=event"], 15000, 300000)],
+                   ("loop", ["profile=fd"], 20000, 400000), ("mt", ["profile=event"], 15000, 300000),
+                   ("sig", [], 6000, 120000), ("wait", [], 6000, 120000), ("ino", [], 2000, 40000)],
         rule="cases = online-decoded loop programs (register/unregister/set-handler/post from setup and callbacks over fds, timers, tasks, events, raw events; 4 poll methods; malloc/free-at-unregister or slot-reuse allocation) from seeded PRNG bytes; non-trivial = the case executed, inside a callback, an unregister of an object that was due in that iteration and not yet dispatched, or of the running object itself; distinct = distinct hash of the executed action sequence + configuration",
         assumptions=["objects are freed/poisoned by the harness at the instant unregister returns; stale accesses are visible through AddressSanitizer or through a stale cookie cell",
                      "the mt campaign adds cross-thread event kicks whose handlers unregister and free descriptors collected in the same poll batch",
-                     "signal/wait/inotify object kinds are exercised by the C10/C11/C20 targets, which apply the same rule"],
+                     "signal interests, wait interests and inotify objects are covered by campaigns on the sig / wait / ino targets (same rule: handler of an unregistered object, or ASan on the freed struct)"],
     ),
     "C02": dict(
         level="exploration", labels=LOOP_LABELS,
@@ -51,8 +52,9 @@ PROPS = {
     ),
     "C06": dict(
         level="exploration", labels=LOOP_LABELS,
-        campaigns=[("loop", ["profile=task"], 100000, 2000000), ("loop", ["profile=task", "big=1"], 30000, 600000), ("loop", ["profile=all"], 20000, 400000)],
-        rule="cases = task-centred loop programs (self/other/fresh/already-run re-registration from task handlers and other callbacks, ready fds and due timers alongside); oracles: exactly once, unregistered on entry, no blocking wait while a task is registered, a task slot runs at most once between two kernel polls; non-trivial = a task that already ran in this round was re-registered from a task handler while a descriptor or timer was due, or tasks were pending on >=5 consecutive iterations on epoll-timerfd (zero deadline through the kernel timer); distinct = executed action sequence hash",
+        campaigns=[("loop", ["profile=task"], 100000, 2000000), ("loop", ["profile=task", "big=1"], 30000, 600000), ("loop", ["profile=all"], 20000, 400000),
+                   ("loop", ["profile=task", "marathon=70000", "cpu_limit=60", "timeout=120"], 16, 64)],
+        rule="cases = task-centred loop programs (self/other/fresh/already-run re-registration from task handlers and other callbacks, ready fds and due timers alongside); oracles: exactly once, unregistered on entry, no blocking wait while a task is registered, a task slot runs at most once between two kernel polls; plus a few 'marathon' cases of 70000 loop iterations with a self re-registering task beside a readable descriptor (wrapping counters); non-trivial = a task that already ran in this round was re-registered from a task handler while a descriptor or timer was due, or tasks were pending on >=5 consecutive iterations on epoll-timerfd (zero deadline through the kernel timer); distinct = executed action sequence hash",
         assumptions=[],
     ),
     "C07": dict(
@@ -117,16 +119,16 @@ MT_LABELS = ["context_switch_inside_iv_event_post", "context_switch_at_owner_loc
              "worker_died_of_idle_timeout", "iv_thread_child", "iv_thread_exit_without_deinit", "iv_thread_pthread_exit", "method_epoll_timerfd",
              "method_epoll", "method_ppoll", "method_poll", "raw_event_kick_transport", "eventfd_fallback_transport", "fd_unregistered_in_event_handler",
              "pool_struct_reuse", "submit_from_completion", "virtual_time_passed_10s", "post_burst", "raw_cross_thread_post", "raw_big_burst",
-             "null_pool_work", "put_from_completion"]
+             "null_pool_work", "put_from_completion", "iv_thread_create_fails"]
 _MT_NOTE = ("trusted: the baton scheduler (harness/vsched.c: preemption only at interposed lock / kick / descriptor-I/O / wait / thread create-join points), "
             "the virtual kernel, the harness' history bookkeeping in harness/t_mt.c, ASan/UBSan. Races between two plain memory accesses are out of reach "
             "here (C14's TSan runs look for those). Exploration of generated schedules, not an exhaustive interleaving search.")
 _MT_TECH = "property-based testing over generated programs AND generated schedules: real pthreads serialised by a baton at every interposed synchronisation point, virtual time, history-invariant oracles at quiescence; two-stream choice-sequence shrinking (schedule first, then program)"
 PROPS["C08"] = dict(
     level="exploration", labels=MT_LABELS, engine="mt",
-    campaigns=[("mt", ["profile=event"], 40000, 800000), ("mt", ["profile=all"], 15000, 300000)],
+    campaigns=[("mt", ["profile=event"], 40000, 800000), ("mt", ["profile=all"], 15000, 300000), ("race", [], 800, 20000)],
     rule="cases = (program bytes, schedule bytes): 1-2 owner loops with stop/shared/private iv_events, 0-3 poster threads with drawn scripts (post, burst, yield, pipe write, raw post), handlers that post to themselves / the other owner, register and unregister private events, optional work pool and iv_thread children in the same loops; 4 poll methods (epoll one-shot kick and raw-event kick transports) x eventfd2/eventfd/pipe; schedule = choice at every lock, unlock, epoll_ctl, descriptor read/write, wait, thread create/join; oracles: whenever every thread is parked (before virtual time advances, and at deadlock) no registered event may have a completed post that is not followed by a handler entry; handler count <= post count; handler thread = owner; deadlock = violation; non-trivial = a context switch happened inside an iv_event_post call or at an owner-side lock boundary; distinct = hash(program actions)",
-    assumptions=["preemption only at interposed synchronisation points (sufficient for lock-, kick- and wake-up-order defects)"],
+    assumptions=["preemption only at interposed synchronisation points (sufficient for lock-, kick- and wake-up-order defects); windows of a few plain instructions are covered by the additional ThreadSanitizer campaign (free-running scenarios of the race target: an unsynchronised access to the event lists is an interleaving that can lose or corrupt a post)"],
     level_text="exploration of generated poster/owner programs under generated schedules on both wake-up transports; lost wake-ups are detected as quiescence with an undelivered post, not by timeouts",
     level_note=_MT_NOTE, technique=_MT_TECH, design_ref="DESIGN.md sections 2.3 and 3 (C08)")
 PROPS["C12"] = dict(
